@@ -40,6 +40,12 @@ type myQuestion struct {
 	releaseRes bool
 	paramCaps  []capDesc // descriptors the peer put into the params
 	pa         *myQuestion // promised-answer target (nil for import targets)
+	paXform    []uint16
+	fwdFor     *theirQuestion // loop-back: this call was sent on behalf of a call the Conn pipelined on one of its questions
+	disembargoSent bool       // the peer sent Disembargo(senderLoopback) for result pointer 0 of this question
+	echoSeen   bool
+	embargoID  uint32
+	embargoSnap []uint64 // tokens of calls pipelined on this question that were in flight when the Disembargo was sent
 	paDoneAtSend bool      // the target answer's implementation had already finished when this call was sent
 }
 
@@ -62,6 +68,11 @@ type theirQuestion struct {
 	retToken   uint64
 	retExc     bool
 	mustFail   bool // the peer has to answer with an exception
+	isPA       bool           // target is a promised answer ...
+	paT        *theirQuestion // ... of this question of the Conn (nil if it was not open)
+	paXform    []uint16
+	fwd        *myQuestion    // loop-back: the call the peer sent to the Conn on behalf of this one
+	loopback   *connExport    // the peer's Return named this export of the Conn (receiverHosted) in result pointer 0
 }
 
 // connExport is an export of the Conn as seen by the peer.
@@ -98,11 +109,17 @@ type peer struct {
 	embargoEchoes []uint32
 	pendingCaps []uint32 // senderHosted ids placed in the message being built
 	theirByToken map[uint64]*theirQuestion
+	theirOrder []*theirQuestion // the Conn's calls in arrival order
+	pins       map[uint32]int   // exports of the Conn named by a loop-back Return whose question is still open: keep a reference
+	nextEmbargo uint32
+	myEmbargoes map[uint32]*myQuestion // Disembargo(senderLoopback) ids sent and not yet echoed
+	echoed     map[uint64]uint32 // tokens covered by an embargo that has been echoed -> embargo id
 }
 
 func newPeer(r *run, out *[]wireMsg) *peer {
 	return &peer{r: r, out: out, myQ: map[uint32]*myQuestion{}, theirQ: map[uint32]*theirQuestion{}, openTheirQ: map[uint32]bool{},
-		exports: map[uint32]*connExport{}, mine: map[uint32]*peerExport{}, theirByToken: map[uint64]*theirQuestion{}}
+		exports: map[uint32]*connExport{}, mine: map[uint32]*peerExport{}, theirByToken: map[uint64]*theirQuestion{},
+		pins: map[uint32]int{}, myEmbargoes: map[uint32]*myQuestion{}, echoed: map[uint64]uint32{}}
 }
 
 // ---- building messages
@@ -342,6 +359,7 @@ func (p *peer) moveCall() bool {
 	} else {
 		q.target = fmt.Sprintf("pa:%d/%v", t.pa.id, t.xform)
 		q.pa = t.pa
+		q.paXform = t.xform
 		if t.pa.returned {
 			p.r.s.Probe("pipelined_on_returned_answer")
 		} else {
@@ -455,12 +473,17 @@ func (p *peer) applyReleaseResultCaps(q *myQuestion) {
 
 func (p *peer) moveRelease() bool {
 	s := p.r.s
-	held := p.heldExports()
+	var held []*connExport
+	for _, e := range p.heldExports() {
+		if e.refs > p.pinned(e.id) {
+			held = append(held, e)
+		}
+	}
 	if len(held) == 0 {
 		return false
 	}
 	e := held[s.Choice("peer-release-which", len(held))]
-	n := 1 + s.Choice("peer-release-count", e.refs)
+	n := 1 + s.Choice("peer-release-count", e.refs-p.pinned(e.id))
 	e.refs -= n
 	p.r.exportRefsChanged(e)
 	p.send(fmt.Sprintf("Release id=%d count=%d (left %d)", e.id, n, e.refs), p.build(func(m rpccp.Message) error {
@@ -480,7 +503,7 @@ func (p *peer) moveReturn() bool {
 	s := p.r.s
 	var cands []*theirQuestion
 	for id := uint32(0); id < 256; id++ {
-		if q := p.theirQ[id]; q != nil && !q.returnSent {
+		if q := p.theirQ[id]; q != nil && !q.returnSent && q.fwd == nil {
 			cands = append(cands, q)
 		}
 	}
@@ -544,6 +567,16 @@ func (p *peer) moveReturn() bool {
 		if kind == 1 || kind == 2 {
 			q.retCaps = []capDesc{p.newCapForConn()}
 		}
+		if held := p.heldExports(); kind == 3 && q.kind == "call" && len(held) > 0 && p.openTheirQ[q.id] && p.theirQ[q.id] == q {
+			// loop-back: the result is a capability the Conn itself hosts.  Calls the Conn pipelined on
+			// this question are reflected to that export (below, and on arrival from now on) and the
+			// Conn has to embargo its own later calls until its Disembargo comes back.
+			e := held[s.Choice("peer-loopback-which", len(held))]
+			q.loopback = e
+			p.pins[e.id]++
+			q.retCaps = []capDesc{{kind: "receiverHosted", id: e.id}}
+			s.Probe("return_names_conn_export")
+		}
 		if q.finishSeen && q.releaseRes {
 			// the Conn already finished this question with releaseResultCaps: capabilities in a late
 			// Return count as released at once
@@ -580,7 +613,167 @@ func (p *peer) moveReturn() bool {
 			}
 			return fillPayload(pl, q.retToken, 0, q.retCaps)
 		}))
+		if q.loopback != nil {
+			for _, tq := range p.theirOrder {
+				if tq.isPA && tq.paT == q && !tq.returnSent && tq.fwd == nil && !tq.mustFail {
+					p.forward(tq, q)
+				}
+			}
+		}
 	}
+	return true
+}
+
+func (p *peer) pinned(id uint32) int {
+	if p.pins[id] > 0 {
+		return 1
+	}
+	return 0
+}
+
+// forward reflects a call the Conn pipelined on question t (which the peer answered with one of the
+// Conn's own exports) to that export; the Return is relayed when it arrives.
+func (p *peer) forward(tq, t *theirQuestion) {
+	s := p.r.s
+	e := t.loopback
+	if len(tq.paXform) != 1 || tq.paXform[0] != 0 || e.refs <= 0 {
+		tq.mustFail = true // the path holds no capability
+		return
+	}
+	fq := &myQuestion{id: p.nextQ, kind: "call", token: tq.token, flags: tq.flags, targetApp: e.appID, fwdFor: tq}
+	p.nextQ++
+	fq.target = fmt.Sprintf("imp:%d", e.id)
+	tq.fwd = fq
+	p.myQ[fq.id] = fq
+	p.order = append(p.order, fq.id)
+	fq.sentSeq = s.Seq()
+	p.r.callSent(fq)
+	s.Probe("pipelined_call_reflected_to_conn_export")
+	p.send(fmt.Sprintf("Call q=%d target=%s token=%d (reflected: the Conn's question %d was pipelined on its question %d)", fq.id, fq.target, fq.token, tq.id, t.id), p.build(func(m rpccp.Message) error {
+		c, err := m.NewCall()
+		if err != nil {
+			return err
+		}
+		c.SetQuestionId(fq.id)
+		c.SetInterfaceId(ifaceID)
+		c.SetMethodId(0)
+		tg, err := c.NewTarget()
+		if err != nil {
+			return err
+		}
+		tg.SetImportedCap(e.id)
+		pl, err := c.NewParams()
+		if err != nil {
+			return err
+		}
+		return fillPayload(pl, fq.token, fq.flags, nil)
+	}))
+}
+
+// relay answers the Conn's pipelined question with what the Conn itself answered to the reflected call.
+func (p *peer) relay(fq *myQuestion) {
+	tq := fq.fwdFor
+	if tq.returnSent {
+		return
+	}
+	tq.returnSent = true
+	p.r.s.Probe("reflected_call_return_relayed")
+	if fq.retErr != "" {
+		tq.retExc = true
+		p.send(fmt.Sprintf("Return a=%d exception (relayed)", tq.id), p.build(func(m rpccp.Message) error {
+			rt, err := m.NewReturn()
+			if err != nil {
+				return err
+			}
+			rt.SetAnswerId(tq.id)
+			rt.SetReleaseParamCaps(false)
+			e, err := rt.NewException()
+			if err != nil {
+				return err
+			}
+			e.SetType(rpccp.Exception_Type_failed)
+			return e.SetReason(fmt.Sprintf("peer-exception:%d relayed: %s", tq.token, fq.retErr))
+		}))
+		return
+	}
+	tq.retToken = fq.retToken
+	p.send(fmt.Sprintf("Return a=%d results token=%d (relayed)", tq.id, tq.retToken), p.build(func(m rpccp.Message) error {
+		rt, err := m.NewReturn()
+		if err != nil {
+			return err
+		}
+		rt.SetAnswerId(tq.id)
+		rt.SetReleaseParamCaps(false)
+		pl, err := rt.NewResults()
+		if err != nil {
+			return err
+		}
+		return fillPayload(pl, tq.retToken, 0, nil)
+	}))
+}
+
+func (p *peer) forwardPending() bool {
+	for _, tq := range p.theirOrder {
+		if tq.fwd != nil && !tq.returnSent {
+			return true
+		}
+	}
+	return false
+}
+
+// moveDisembargo: the peer pipelined on one of its questions and the Conn answered with a capability
+// the peer itself hosts; the peer asks for the loop-back signal.  When the echo arrives every pipelined
+// call sent before must already have been reflected (or answered).
+func (p *peer) moveDisembargo() bool {
+	s := p.r.s
+	var cands []*myQuestion
+	for _, id := range p.order {
+		q := p.myQ[id]
+		if q.kind == "call" && q.returned && q.retErr == "" && !q.finishSent && !q.disembargoSent && len(q.retCaps) > 0 && q.retCaps[0].kind == "receiverHosted" {
+			if e := p.mine[q.retCaps[0].id]; e != nil {
+				cands = append(cands, q)
+			}
+		}
+	}
+	if len(cands) == 0 {
+		return false
+	}
+	q := cands[s.Choice("peer-disembargo-which", len(cands))]
+	q.disembargoSent = true
+	q.embargoID = p.nextEmbargo
+	p.nextEmbargo++
+	for _, id := range p.order {
+		if c := p.myQ[id]; c.pa == q && len(c.paXform) == 1 && c.paXform[0] == 0 && !c.returned {
+			q.embargoSnap = append(q.embargoSnap, c.token)
+		}
+	}
+	p.myEmbargoes[q.embargoID] = q
+	s.Probe("disembargo_sender_loopback_sent")
+	if len(q.embargoSnap) > 0 {
+		s.Probe("disembargo_sent_with_pipelined_calls_in_flight")
+	}
+	p.send(fmt.Sprintf("Disembargo senderLoopback id=%d target=pa:%d/[0] in-flight=%v", q.embargoID, q.id, q.embargoSnap), p.build(func(m rpccp.Message) error {
+		d, err := m.NewDisembargo()
+		if err != nil {
+			return err
+		}
+		tg, err := d.NewTarget()
+		if err != nil {
+			return err
+		}
+		pa, err := tg.NewPromisedAnswer()
+		if err != nil {
+			return err
+		}
+		pa.SetQuestionId(q.id)
+		ops, err := pa.NewTransform(1)
+		if err != nil {
+			return err
+		}
+		ops.At(0).SetGetPointerField(0)
+		d.Context().SetSenderLoopback(q.embargoID)
+		return nil
+	}))
 	return true
 }
 
@@ -624,6 +817,17 @@ func (p *peer) process(data []byte) {
 		case rpccp.MessageTarget_Which_promisedAnswer:
 			pa, _ := tg.PromisedAnswer()
 			q.target = fmt.Sprintf("pa:%d", pa.QuestionId())
+			q.isPA = true
+			if ops, err := pa.Transform(); err == nil {
+				for i := 0; i < ops.Len(); i++ {
+					if ops.At(i).Which() == rpccp.PromisedAnswer_Op_Which_getPointerField {
+						q.paXform = append(q.paXform, ops.At(i).GetPointerField())
+					}
+				}
+			}
+			if p.openTheirQ[pa.QuestionId()] {
+				q.paT = p.theirQ[pa.QuestionId()]
+			}
 			if !p.openTheirQ[pa.QuestionId()] {
 				// use after Finish: a conformance slip the listed properties do not cover; a real peer answers with an exception
 				s.Probe("conn_called_promised_answer_after_its_finish")
@@ -637,7 +841,15 @@ func (p *peer) process(data []byte) {
 		}
 		p.openQuestion(id, q)
 		p.theirByToken[q.token] = q
+		p.theirOrder = append(p.theirOrder, q)
 		r.localCallArrived(q)
+		if eid, late := p.echoed[q.token]; late && q.token != 0 {
+			p.r.mfail("embargo_broken", "rpc.go:(*Conn).handleDisembargo", fmt.Sprintf("the Conn reflected the pipelined call with token %d after it had echoed Disembargo %d, which was sent after that call", q.token, eid))
+			return
+		}
+		if q.isPA && q.paT != nil && q.paT.loopback != nil && !q.mustFail {
+			p.forward(q, q.paT)
+		}
 	case rpccp.Message_Which_return:
 		rt, _ := m.Return()
 		id := rt.AnswerId()
@@ -681,6 +893,9 @@ func (p *peer) process(data []byte) {
 				p.noteConnDescriptor(cd, app)
 			}
 			r.peerGotReturn(q)
+			if q.fwdFor != nil {
+				p.relay(q)
+			}
 			if q.finishSent && q.releaseRes {
 				p.applyReleaseResultCaps(q)
 			}
@@ -702,6 +917,9 @@ func (p *peer) process(data []byte) {
 			q.retErr = "other:" + rt.Which().String()
 		}
 		r.peerGotReturn(q)
+		if q.fwdFor != nil {
+			p.relay(q)
+		}
 	case rpccp.Message_Which_finish:
 		f, _ := m.Finish()
 		id := f.QuestionId()
@@ -714,6 +932,9 @@ func (p *peer) process(data []byte) {
 		q.finishSeen = true
 		q.releaseRes = f.ReleaseResultCaps()
 		delete(p.openTheirQ, id)
+		if q.loopback != nil && p.pins[q.loopback.id] > 0 {
+			p.pins[q.loopback.id]--
+		}
 		if q.releaseRes {
 			// the Conn gives up the capabilities we returned
 			for _, cd := range q.retCaps {
@@ -833,6 +1054,14 @@ func (p *peer) handleDisembargo(d rpccp.Disembargo) {
 			p.r.mfail("disembargo_target", "rpc.go:(*Conn).handleReturn", "senderLoopback disembargo does not target a promised answer")
 			return
 		}
+		pa, _ := tg.PromisedAnswer()
+		t := p.theirQ[pa.QuestionId()]
+		if t == nil || t.loopback == nil {
+			p.r.mfail("disembargo_target", "rpc.go:(*Conn).handleReturn", fmt.Sprintf("senderLoopback disembargo targets question %d, which the peer did not answer with one of the Conn's own capabilities", pa.QuestionId()))
+			return
+		}
+		s.Logf("conn -> peer: Disembargo senderLoopback id=%d target=pa:%d", id, pa.QuestionId())
+		expID := t.loopback.id
 		// echo (our reflected calls, if any, were sent before)
 		p.send(fmt.Sprintf("Disembargo receiverLoopback id=%d", id), p.build(func(m rpccp.Message) error {
 			dd, err := m.NewDisembargo()
@@ -843,10 +1072,39 @@ func (p *peer) handleDisembargo(d rpccp.Disembargo) {
 			if err != nil {
 				return err
 			}
-			t2.SetImportedCap(0)
+			t2.SetImportedCap(expID)
 			dd.Context().SetReceiverLoopback(id)
 			return nil
 		}))
+	case rpccp.Disembargo_context_Which_receiverLoopback:
+		id := d.Context().ReceiverLoopback()
+		s.Logf("conn -> peer: Disembargo receiverLoopback id=%d", id)
+		q := p.myEmbargoes[id]
+		if q == nil {
+			p.r.mfail("disembargo_echo_unknown", "rpc.go:(*Conn).handleDisembargo", fmt.Sprintf("the Conn echoed Disembargo id %d which the peer never sent (or which was already echoed)", id))
+			return
+		}
+		delete(p.myEmbargoes, id)
+		q.echoSeen = true
+		s.Probe("disembargo_echo_received")
+		tg, _ := d.Target()
+		if tg.Which() != rpccp.MessageTarget_Which_importedCap || tg.ImportedCap() != q.retCaps[0].id {
+			p.r.mfail("disembargo_echo_target", "rpc.go:(*Conn).handleDisembargo", fmt.Sprintf("the echo of Disembargo %d targets %v/%d, want importedCap %d", id, tg.Which(), tg.ImportedCap(), q.retCaps[0].id))
+			return
+		}
+		for _, tok := range q.embargoSnap {
+			var mq *myQuestion
+			for _, qid := range p.order {
+				if c := p.myQ[qid]; c.token == tok && c.fwdFor == nil {
+					mq = c
+				}
+			}
+			if p.theirByToken[tok] == nil && (mq == nil || !mq.returned) {
+				p.r.mfail("embargo_broken", "rpc.go:(*Conn).handleDisembargo", fmt.Sprintf("the Conn echoed Disembargo %d although the call with token %d, pipelined on question %d before the Disembargo was sent, has neither been reflected to the peer nor answered", id, tok, q.id))
+				return
+			}
+			p.echoed[tok] = id
+		}
 	default:
 		s.Logf("conn -> peer: Disembargo %v", d.Context().Which())
 	}
@@ -862,4 +1120,16 @@ func releaseMsg(id, n uint32) func(m rpccp.Message) error {
 		rl.SetReferenceCount(n)
 		return nil
 	}
+}
+
+func (p *peer) moveDisembargoPossible() bool {
+	for _, id := range p.order {
+		q := p.myQ[id]
+		if q.kind == "call" && q.returned && q.retErr == "" && !q.finishSent && !q.disembargoSent && len(q.retCaps) > 0 && q.retCaps[0].kind == "receiverHosted" {
+			if e := p.mine[q.retCaps[0].id]; e != nil {
+				return true
+			}
+		}
+	}
+	return false
 }
